@@ -73,6 +73,7 @@ def gen_history(r):
     P = r.choice([1, 2, 3, 3, 4, 6])
     pattern = r.choice(["slow", "plateau", "noisy", "up", "hit"])
     f = r.uniform(0.2, 0.7)
+    nanfit = r.random() < 0.07
     gens = []
     for g in range(mc + 1):
         if pattern == "slow": f = f + (1 - f) * r.uniform(0.001, 0.2)
@@ -81,6 +82,8 @@ def gen_history(r):
         elif pattern == "up": f = max(0.01, f - r.uniform(0.0, 0.05))
         else: f = r.choice([1.0, 0.999, 0.95, f, 1.0 + 1e-9])
         fits = [f] * P if r.random() < 0.5 else [min(2.0, max(1e-3, f + r.uniform(-0.05, 0.05))) for _ in range(P)]
+        if nanfit and P >= 2 and r.random() < 0.6:      # an agent whose fitness is not a number (objective undefined there): the mean, hence the rate, is NaN
+            fits[r.randrange(P)] = float("nan")
         alphabet = COSTS if r.random() < 0.7 else [r.uniform(-5, 5) for _ in range(3)]
         costs = [r.choice(alphabet) for _ in range(P)]
         if g > 0 and r.random() < 0.35:              # the previous best cost reappears on another agent (plateau objectives)
@@ -90,12 +93,13 @@ def gen_history(r):
     diffs = [rates[0]] + [rates[i] - rates[i - 1] for i in range(1, len(rates))]
     fe = None
     k = r.random()
+    finite = lambda xs: [x for x in xs if not math.isnan(x)] or [0.1]
     if k < 0.55:
-        base = r.choice(rates)
+        base = r.choice(finite(rates))
         fe = r.choice([base, float(np.nextafter(base, -np.inf)), float(np.nextafter(base, np.inf)), base * 0.5, 0.0, 0.1, -0.0, 1e-300])
     early = None
     if r.random() < 0.55:
-        md = abs(r.choice(diffs))
+        md = abs(r.choice(finite(diffs)))
         md = r.choice([md, float(np.nextafter(md, np.inf)), float(np.nextafter(md, 0.0)), md * 2, 1e-4, 0.02, 0.0, float("inf")])
         early = (r.choice([1, 1, 2, 3, 4]), md)
     minmax = r.choice(["min", "max"])
